@@ -54,7 +54,7 @@ LEVEL_NOTE = ("Trusted: Lean kernel; axioms propext/Classical.choice/Quot.sound 
               "The theorems' description grammar has one 'allowed vlan' line; ordinal_list_roundtrip assumes the rendered name has no whitespace "
               "(true for names without class word, not proved). stanza_family keeps the hypothesis 'no line is a banner start': an unanchored "
               "'aaa authentication fail-message' inside a description would make the line a banner start.")
-LEVEL_NOTE += (" " + "regexes_as_modelled (Ccp.RxC19): _RE_IP_ROUTE (canonical verbose form + flags) and the scan list (regex calls, keyword / slice comparisons, separators) of each of the 28 modelled accessors of models_cisco.py are regenerated from /repo on every run and proved equal to the literals the token matchers of Model/IosModels.lean were written for; the scan lists of CiscoIOSInterface (C15) and CiscoRange.parse_integers (C14), which ordinal_list / trunk_vlans_allowed go through, are conjuncts too. An edit of any of these regexes breaks an obligation of this check.")
+LEVEL_NOTE += (" " + "regexes_as_modelled (Ccp.RxC19): the scan set (regex calls with pattern text and flags, keyword / slice comparisons, separators) of each of the 28 modelled accessors of models_cisco.py (incl. _RE_IP_ROUTE in canonical verbose form) is re-read from /repo's AST on every run and proved equal to the literals the token matchers of Model/IosModels.lean were written for; the scan sets of CiscoIOSInterface (C15) and CiscoRange integer parsing (C14), which ordinal_list / trunk_vlans_allowed go through, are conjuncts too. An edit of any of these regexes breaks an obligation of this check.")
 EXHAUSTIVE = {"quick": False, "thorough": False}
 ASSUMPTIONS = [
     "no line-break character inside a config line; ASCII digits only",
